@@ -115,6 +115,24 @@ def realise(can, tree, taxa_order, seq_order, seqs, tip):
     return case
 
 
+def timetree_newick(can, tree, heights_by_clade):
+    """the time tree of `can` written with branch lengths = parent height - child height, plus a small excess
+    per branch (keyed by clade) so that the lengths are not exactly clock-consistent: the node heights the
+    library derives (oldest path below each node) cannot depend on the order in which children are written"""
+    names = can["names"]
+    cl = clades(tree)
+    rep = lambda x: repr(float(x))
+
+    def rec(u, hpar):
+        c = cl[id(u)]
+        h = heights_by_clade[c]
+        ln = "" if hpar is None else ":" + rep((hpar - h) * (1.0 + can["excess"].setdefault(c, 0.0)))
+        if isinstance(u, int):
+            return names[u] + ln
+        return "(" + rec(u[0], h) + "," + rec(u[1], h) + ")" + ln
+    return rec(tree, None) + ";"
+
+
 def newick_with_lengths(can, tree, frac, trifurcate):
     """The unrooted tree of `can` as a newick string carrying its branch lengths, rooted as `tree`:
     the root edge is split frac : 1-frac between the two root children; with trifurcate the first
@@ -188,6 +206,25 @@ def variants(can, rng):
     out.append(("perm_columns", realise(can, can["tree"], ident, ident, ["".join(s[c] for c in cols) for s in can["seqs"]],
                                         "partials_noamb")))
     out.append(("states_vs_partials", realise(can, can["tree"], ident, ident, can["seqs"], "states")))
+    if can["kind"] == "strict" and n >= 3:
+        # the same time tree written with (slightly inconsistent) branch lengths in the newick string, in two
+        # child orders: keep_branch_lengths must give the same heights, hence the same likelihood
+        try:
+            mA = c01.build(A)
+            nh = [float(x) for x in mA.tree_model.node_heights.detach()]
+            idx = node_index_map(can["tree"], ident)
+            hb = {clade: nh[j] for clade, j in idx.items()}
+            can.setdefault("excess", {})
+            for clade in hb:
+                can["excess"].setdefault(clade, rng.choice([0.0, rng.uniform(0.0, 0.08)]))
+            sw = trees.swap_children(rng, can["tree"], 1.0)
+            va = realise(can, can["tree"], ident, ident, can["seqs"], "partials_noamb")
+            vb = realise(can, sw, ident, ident, can["seqs"], "partials_noamb")
+            va["treem"] = dict(va["treem"], newick=timetree_newick(can, can["tree"], hb))
+            vb["treem"] = dict(vb["treem"], newick=timetree_newick(can, sw, hb))
+            out.append(("timetree_newick_swap", vb, va))
+        except Exception:
+            pass
     if can["kind"] == "unrooted" and n >= 3:
         rt = reroot(can["tree"], rng)
         p2 = ident[:]; rng.shuffle(p2)
@@ -225,8 +262,11 @@ def run(tier, seed, replay=None):
         for _ in range(npairs):
             can = gen_canonical(rng, tier)
             A, vs = variants(can, rng)
-            for kind, B in vs:
-                pairs.append((kind, A, B))
+            for item in vs:
+                if len(item) == 3:          # a pair of its own (both members differ from A)
+                    pairs.append((item[0], item[2], item[1]))
+                else:
+                    pairs.append((item[0], A, item[1]))
     t0 = time.time()
     cache = {}
 
